@@ -95,9 +95,15 @@ def kclass(k):
     return "secret" if k in SECRET_ANY else "public" if k.endswith("_pub") else "private"
 
 
+GENERIC32 = bytes((i * 13 + 5) & 0xFF for i in range(32))
+
+
 def key_template(k, flagname, flagval, allowed):
     cls = {"x_priv": "ec_priv"}.get(k, k)
     tpl = T(*base_template(cls, 0))
+    if k == "generic":
+        # 32 bytes: also a legal AES length, so that "the right bytes under the wrong key type" exists for the type check to refuse
+        tpl = [e for e in tpl if e[0] != K.CKA_VALUE] + T(("CKA_VALUE", GENERIC32))
     tpl += T(("CKA_TOKEN", False), ("CKA_PRIVATE", False))
     if flagname in CLASS_FLAGS[kclass(k)]:
         tpl += T((flagname, flagval))
@@ -452,6 +458,22 @@ class C07(Check):
                 r1 = w.C_Encrypt(s=s, data=data, out=256)
                 if r1["rv"] == K.CKR_OK:
                     return r1["out"]["data"]
+            # a key of the WRONG type cannot make the blob itself: make it with a key of the right type that has the same bytes, so that only the
+            # class / type check (and not an undecipherable blob) can refuse the unwrap
+            if k in SECRET_ANY:
+                raw = GENERIC32 if k == "generic" else dict(base_template(k, 0))["CKA_VALUE"]
+                raw = bytes.fromhex(raw) if isinstance(raw, str) else bytes(raw)
+                for kt, lens in (("CKK_AES", (16, 24, 32)), ("CKK_DES3", (24,))):
+                    if len(raw) not in lens and not (kt == "CKK_AES" and len(raw) > 16):
+                        continue
+                    val = raw if len(raw) in lens else raw[:16]
+                    tw2 = w.C_CreateObject(s=s, tpl=T(("CKA_CLASS", "CKO_SECRET_KEY"), ("CKA_KEY_TYPE", kt), ("CKA_VALUE", val), ("CKA_TOKEN", False), ("CKA_PRIVATE", False),
+                                                     ("CKA_WRAP", True), ("CKA_ENCRYPT", True)))
+                    if tw2["rv"] != K.CKR_OK:
+                        continue
+                    r = w.C_WrapKey(s=s, mech=mech, wkey=tw2["h"], key=tgt, out=1024)
+                    if r["rv"] == K.CKR_OK:
+                        return r["out"]["data"]
         except Exception:
             pass
         return "ab" * 24
